@@ -1,4 +1,4 @@
-use proc_macro2::{Span, TokenStream, TokenTree};
+use proc_macro2::{Delimiter, Span, TokenStream, TokenTree};
 use quote::quote;
 use std::borrow::Cow;
 use syn::spanned::Spanned;
@@ -396,12 +396,25 @@ impl Parser {
         };
 
         let body = match tokens.next() {
-            Some(TokenTree::Group(group)) => group.stream(),
             Some(first) => {
-                let mut body = TokenStream::from(first);
+                let mut rest = tokens.peekable();
 
-                body.extend(tokens);
-                body
+                match first {
+                    // A body that is just a block: use its statements directly
+                    TokenTree::Group(ref group)
+                        if group.delimiter() == Delimiter::Brace && rest.peek().is_none() =>
+                    {
+                        group.stream()
+                    }
+                    // Anything else is an expression, which may well start with a group,
+                    // e.g. `(a > 1) && b`, `(a, b)` or `[a, b]`: keep all of it
+                    first => {
+                        let mut body = TokenStream::from(first);
+
+                        body.extend(rest);
+                        body
+                    }
+                }
             }
             None => {
                 self.err("Callback missing a body", span);
